@@ -136,9 +136,16 @@ class EofPdu(AbstractFileDirectiveBase):
         eof_pdu = cls.__empty()
         eof_pdu.pdu_file_directive = FileDirectivePduBase.unpack(raw_packet=data)
         eof_pdu.pdu_file_directive.verify_length_and_checksum(data)
+        # The directive parameters end where the PDU ends according to its header, before the CRC
+        # trailer if there is one. Anything after that is not part of this PDU.
+        end_of_params = eof_pdu.pdu_file_directive.packet_len
+        if eof_pdu.pdu_file_directive.pdu_conf.crc_flag == CrcFlag.WITH_CRC:
+            end_of_params -= 2
         expected_min_len = eof_pdu.pdu_file_directive.header_len + 9
-        if expected_min_len > len(data):
-            raise BytesTooShortError(expected_min_len, len(data))
+        if eof_pdu.pdu_file_directive.pdu_header.large_file_flag_set:
+            expected_min_len += 4
+        if expected_min_len > end_of_params:
+            raise BytesTooShortError(expected_min_len, end_of_params)
         current_idx = eof_pdu.pdu_file_directive.header_len
         eof_pdu.condition_code = (data[current_idx] & 0xF0) >> 4
         current_idx += 1
@@ -147,11 +154,6 @@ class EofPdu(AbstractFileDirectiveBase):
         current_idx, eof_pdu.file_size = eof_pdu.pdu_file_directive.parse_fss_field(
             raw_packet=data, current_idx=current_idx
         )
-        # The directive parameters end where the PDU ends according to its header, before the CRC
-        # trailer if there is one. Anything after that is not part of this PDU.
-        end_of_params = eof_pdu.pdu_file_directive.packet_len
-        if eof_pdu.pdu_file_directive.pdu_conf.crc_flag == CrcFlag.WITH_CRC:
-            end_of_params -= 2
         if end_of_params > current_idx:
             eof_pdu.fault_location = EntityIdTlv.unpack(
                 data=data[current_idx:end_of_params]
